@@ -315,6 +315,12 @@ def _replacements(extra=None):
     import warnings
     rep = {id(_np): NP, id(_random): RANDOM, id(_math): MATH, id(warnings): WARNINGS,
            id(csg.floyd_warshall): floyd_warshall_facade, id(ssd.cdist): cdist_facade}
+    try:
+        import torch
+        from . import symtorch
+        rep[id(torch)] = symtorch.TORCH
+    except ImportError:
+        pass
     if extra:
         rep.update(extra)
     return rep
